@@ -638,9 +638,42 @@ def shrink(case, failing):
 
 
 # ----------------------------------------------------------------------------
+ADDERS = ("append", "append_renumber", "extend", "iadd", "setitem")
+
+
+def first_outside_premise_real(case):
+    """The premise once more, on the real side, for trees on which the model's state may have drifted from the
+    real one: position of the first SetNum that renumbers a member onto a number in use although the member
+    is not SUPPOSED to be linked to this collection's problem, else None.  'Supposed' follows the history, not
+    obj._problem (a tree that forgets to link is exactly what must be caught): an object is supposed to be
+    linked here after an adding operation of this problem's collection succeeded for it, and elsewhere after
+    the other problem's append succeeded for it."""
+    w = World(case)
+    n = len(w.objs)
+    here = [case["clink"] and i in case["members"] and i not in case["fmembers"] for i in range(n)]
+    for i, op in enumerate(case["ops"]):
+        if op[0] == "setnum":
+            mem = w.members()
+            x = op[1]
+            if x in mem and not here[x] and op[2] in [w.number(m) for m in mem if m != x]:
+                return i
+        before = set(w.members())
+        r = w.apply(op)
+        if op[0] in ADDERS and case["clink"] and (r == "ok" or r.startswith("n:")):
+            for x in set(w.members()) - before:
+                here[x] = True
+        elif op[0] == "fappend" and r == "ok":
+            here[op[1]] = False
+    return None
+
+
 def check_case(case):
-    """returns (kind, detail) for a failing case or None"""
-    o = oracle(case)
+    """returns (kind, detail) for a failing case or None; only the part of the sequence that is inside the
+    premise on the real side too is judged"""
+    j = first_outside_premise_real(case)
+    if j is not None:
+        case = dict(case, ops=list(case["ops"])[:j])
+    o = oracle(case) if case["ops"] else None
     if o is not None:
         return ("oracle", o)
     return None
@@ -663,7 +696,7 @@ def corr_mismatch(case, model_ans):
     return None
 
 
-def neighbours(case, rng, limit=700):
+def neighbours(case, rng, limit=500):
     """the disagreeing case followed by one or two operations aimed at what it touched: every object gets
     the numbers that are around, is added, removed, looked up"""
     w = World(case)
@@ -672,8 +705,17 @@ def neighbours(case, rng, limit=700):
     n = len(w.objs)
     numbers = sorted(set(list(case["nums"]) + [w.number(i) for i in range(n)] +
                          [x for op in case["ops"] for x in op[1:] if isinstance(x, int) and 0 < x < 60]))
-    touched = sorted(set([x for op in case["ops"] for x in (op[1] if isinstance(op[1], list) else op[1:2])
-                          if isinstance(x, int) and 0 <= x < n] if case["ops"] else []) | set(w.members()))
+    touched = set(w.members())
+    for op in case["ops"]:
+        if op[0] in ("extend", "iadd"):
+            touched |= set(op[1])
+        elif op[0] in ("append", "append_renumber", "remove", "setnum", "contains", "fappend"):
+            touched.add(op[1])
+        elif op[0] == "setitem":
+            touched.add(op[2])
+        elif op[0] == "slice_append":
+            touched.add(op[4])
+    touched = sorted(x for x in touched if isinstance(x, int) and 0 <= x < n)
     objs = touched or list(range(n))
     fresh = max(numbers + [1]) + 3
     pool = []
@@ -753,7 +795,7 @@ def replay_findings(ctx):
 
 
 def run(ctx):
-    n_cases = 600 if ctx.tier == "quick" else 30000
+    n_cases = 600 if ctx.tier == "quick" else 24000
     proved = ctx.prove()
     ok, log = vlib.coq_make(["Model/Coll.vo"])
     if not ok:
@@ -823,7 +865,7 @@ def run(ctx):
                 small = shrink(c, failing2)
                 a = ask([small])[0]
                 first_corr = {"case": small, "request": request_of(small), "diff": corr_mismatch(small, a)}
-            if near is None and corr_bad <= 8:
+            if near is None and corr_bad <= 4:
                 # lesson (ii): look for a failing input around the disagreement before giving up
                 def failing3(cc):
                     return corr_mismatch(cc, ask([cc])[0]) is not None and check_case(cc) is None
